@@ -1489,7 +1489,12 @@ class Ev:
         return v
 
     def e_Lambda(self, n, env, mod):
-        return LambdaV(n, dict(env), mod)
+        # Python's closure semantics: free variables are looked up in the enclosing scope when the lambda is CALLED (the scope itself is captured, not a
+        # snapshot of it); default values are evaluated once, when the lambda is made
+        lam = LambdaV(n, env, mod)
+        lam.defaults = [self.eval(d, env, mod) for d in n.args.defaults]
+        lam.kw_defaults = {a.arg: self.eval(d, env, mod) for a, d in zip(n.args.kwonlyargs, n.args.kw_defaults) if d is not None}
+        return lam
 
     def e_Starred(self, n, env, mod):
         raise self.err("starred expression outside call/tuple", n, mod)
@@ -1820,9 +1825,14 @@ class Ev:
                 raise self.err("lambda arity", n, mod)
             for p, v in zip(params, args):
                 env[p] = v
-            for d, p in zip(reversed(f.node.args.defaults), reversed(params)):
-                if p not in env:
-                    env[p] = self.eval(d, f.env, f.mod)
+            bound_now = set(params[:len(args)]) | set(kwargs)
+            made = getattr(f, "defaults", None)
+            for i_, (d, p) in enumerate(zip(reversed(f.node.args.defaults), reversed(params))):
+                if p not in bound_now:
+                    env[p] = made[len(made) - 1 - i_] if made is not None else self.eval(d, f.env, f.mod)
+            for p, v in getattr(f, "kw_defaults", {}).items():
+                if p not in kwargs:
+                    env[p] = v
             for k, v in kwargs.items():
                 env[k] = v
             return self.eval(f.node.body, env, f.mod)
